@@ -841,3 +841,44 @@ Definition resolve6 (v : variant) (st : rstate) (profile naov pdov vrf : N) (s :
                         r6_pd := pd; r6_pdpool := pdpool |})
       end
   end.
+
+(* ---------------------------------------------------------------- re-entry: the allocation context of a session *)
+(* allocator.Context as far as ResolveV4/ResolveV6 read and write it.  A session calls Resolve again with
+   the SAME context (REQUEST after DISCOVER, renew, retry after a failure); releases through the registry
+   do not touch the context.  Whatever the context says, an address it carries is re-staked with
+   ReserveIP / ReserveIANA / ReservePD on every entry. *)
+Record sctx4 := { c4_pf : N; c4_ov : N; c4_vrf : N;
+                  c4_addr : option addr;      (* ctx.IPv4Address *)
+                  c4_pool : option key }.     (* ctx.AllocatedPool *)
+Definition resolve4_ctx (v : variant) (st : rstate) (s : sid) (cx : sctx4)
+                        (obs : option (key * gobs)) (wobs : option key)
+  : option (rstate * sctx4 * res4) :=
+  match resolve4 v st (c4_pf cx) (c4_ov cx) (c4_vrf cx) s (c4_addr cx) obs wobs with
+  | Some (st', R4 a (Some k)) =>
+      Some (st', {| c4_pf := c4_pf cx; c4_ov := c4_ov cx; c4_vrf := c4_vrf cx;
+                    c4_addr := Some a; c4_pool := Some k |}, R4 a (Some k))
+  | Some (st', r) => Some (st', cx, r)
+  | None => None
+  end.
+
+Record sctx6 := { c6_pf : N; c6_naov : N; c6_pdov : N; c6_vrf : N;
+                  c6_na : option addr;        (* ctx.IPv6Address *)
+                  c6_pd : option pfx;         (* ctx.IPv6Prefix *)
+                  c6_napool : option key;     (* ctx.AllocatedIANAPool *)
+                  c6_pdpool : option key }.   (* ctx.AllocatedPDPool *)
+Definition resolve6_ctx (v : variant) (st : rstate) (s : sid) (cx : sctx6)
+                        (obsna obspd : option (key * gobs)) (wna wpd : option key)
+  : option (rstate * sctx6 * r6) :=
+  match resolve6 v st (c6_pf cx) (c6_naov cx) (c6_pdov cx) (c6_vrf cx) s (c6_na cx) (c6_pd cx) obsna obspd wna wpd with
+  | Some (st', r) =>
+      Some (st',
+            {| c6_pf := c6_pf cx; c6_naov := c6_naov cx; c6_pdov := c6_pdov cx; c6_vrf := c6_vrf cx;
+               c6_na := r6_na r;
+               c6_pd := match r6_pd r with
+                        | Some (OP ip o b) => Some (Pfx (Some (V6, ip)) o b)
+                        | _ => c6_pd cx end;
+               c6_napool := match r6_napool r with Some k => Some k | None => c6_napool cx end;
+               c6_pdpool := match r6_pdpool r with Some k => Some k | None => c6_pdpool cx end |},
+            r)
+  | None => None
+  end.
